@@ -41,6 +41,11 @@ type Ask struct {
 	PipeAt  int      `json:"pipeAt"`            // ms after At, -1 = never
 	CloseAt int      `json:"closeAt"`           // ms after At, -1 = never
 	CtxPipe bool     `json:"ctxPipe,omitempty"` // use ActorContext.PipeTo instead of Ask (forwarders = Pipe)
+	// Default: the Ask is issued without a timeout argument: the asker's own default applies (the actor's if it has
+	// one, else the system's); Timeout then holds that effective value
+	Default bool `json:"default,omitempty"`
+	// Pipe2: a second Future.PipeTo call, issued in the same tick right after the first one, with these forwarders
+	Pipe2 []string `json:"pipe2,omitempty"`
 }
 
 type Case struct {
@@ -52,6 +57,9 @@ type Case struct {
 	// the zombie) | stop-decision (it fails and its supervisor decides Stop). All steps happen at the same virtual instant.
 	How         map[string]string `json:"how,omitempty"`
 	SysDecision string            `json:"sysDecision,omitempty"` // decision of the system strategy: "" (library default) | restart | stop
+	// default Ask timeouts (ms): of the system (0 = one hour, i.e. never within a case) and of single actors
+	SysDefault   int            `json:"sysDefault,omitempty"`
+	ActorDefault map[string]int `json:"actorDefault,omitempty"`
 }
 
 func (c Case) JSON() string { b, _ := json.Marshal(c); return string(b) }
@@ -91,6 +99,15 @@ func genCase(t *rapid.T) Case {
 	for i := 0; i < na; i++ {
 		c.Actors = append(c.Actors, string("abcd"[i]))
 	}
+	if rapid.IntRange(0, 2).Draw(t, "defaults") == 0 {
+		c.SysDefault = rapid.IntRange(2, 6).Draw(t, "sysDefault")
+		c.ActorDefault = map[string]int{}
+		for _, a := range c.Actors {
+			if rapid.Bool().Draw(t, "ownDefault") {
+				c.ActorDefault[a] = rapid.IntRange(1, 6).Draw(t, "actorDefault")
+			}
+		}
+	}
 	n := rapid.IntRange(1, 8).Draw(t, "nAsks")
 	for i := 0; i < n; i++ {
 		a := Ask{ID: 100 + i*10, PipeAt: -1, CloseAt: -1}
@@ -100,6 +117,13 @@ func genCase(t *rapid.T) Case {
 		a.Target = rapid.SampledFrom(c.Actors).Draw(t, "target")
 		a.At = rapid.IntRange(0, 3).Draw(t, "at")
 		a.Timeout = rapid.IntRange(1, 5).Draw(t, "timeout")
+		if c.SysDefault > 0 && rapid.IntRange(0, 2).Draw(t, "useDefault") > 0 {
+			a.Default = true
+			a.Timeout = c.SysDefault
+			if d, ok := c.ActorDefault[a.Asker]; ok && a.Asker != "" {
+				a.Timeout = d
+			}
+		}
 		a.Reply = rapid.SampledFrom([]string{"delay", "delay", "delay", "never", "twice", "err"}).Draw(t, "reply")
 		// delays around the timeout: 0, < t, = t, > t
 		a.Delay = rapid.SampledFrom([]int{0, 0, max(a.Timeout-1, 0), a.Timeout, a.Timeout + 1, rapid.IntRange(0, 6).Draw(t, "delayAny")}).Draw(t, "delay")
@@ -110,7 +134,11 @@ func genCase(t *rapid.T) Case {
 			// PipeResult cannot be told apart at a forwarder
 			a.Pipe = rapid.SliceOfNDistinct(rapid.SampledFrom(c.Actors[1:]), 1, min(k, len(c.Actors)-1), func(s string) string { return s }).Draw(t, "forwarders")
 			a.PipeAt = rapid.SampledFrom([]int{0, 0, a.Delay, a.Timeout, rapid.IntRange(0, 6).Draw(t, "pipeAny")}).Draw(t, "pipeAt")
+			if a.PipeAt == 0 && rapid.IntRange(0, 2).Draw(t, "pipeTwice") == 0 {
+				a.Pipe2 = rapid.SliceOfNDistinct(rapid.SampledFrom(c.Actors[1:]), 1, len(c.Actors)-1, func(s string) string { return s }).Draw(t, "forwarders2")
+			}
 			if a.Asker != "" && rapid.IntRange(0, 2).Draw(t, "ctxPipe") == 0 {
+				a.Pipe2 = nil
 				a.CtxPipe = true
 				a.PipeAt = 0
 				a.Waiters = 0
@@ -158,13 +186,16 @@ func run(t *testing.T, c Case) (v *verdict, nontrivial bool, labels []string) {
 	lab := map[string]bool{}
 	res := vt.Run(t, func() {
 		opt := world.Options{AskTimeout: time.Hour}
+		if c.SysDefault > 0 {
+			opt.AskTimeout = time.Duration(c.SysDefault) * time.Millisecond
+		}
 		if c.SysDecision != "" {
 			opt.SysDecisions = []string{c.SysDecision}
 		}
 		w := world.New(opt)
 		defer w.Close()
 		for _, n := range c.Actors {
-			sp := world.Spec{Name: n}
+			sp := world.Spec{Name: n, AskTimeout: int64(c.ActorDefault[n]) * ms}
 			if c.How[n] == "zombie-kill" {
 				sp.FailRestarted, sp.FailMode = []int{1}, "panic"
 			}
@@ -199,9 +230,14 @@ func run(t *testing.T, c Case) (v *verdict, nontrivial bool, labels []string) {
 							prog = []world.Step{{Op: "replyafter", D: int64(a.Delay) * ms, ID: a.ID + 1000}}
 						}
 					}
-					st := world.Step{Op: "ask", To: a.Target, ID: a.ID, D: int64(a.Timeout) * ms, N: a.Waiters, Do: prog}
+					d := int64(a.Timeout) * ms
+					if a.Default {
+						d = 0 // no timeout argument
+						lab["default-timeout"] = true
+					}
+					st := world.Step{Op: "ask", To: a.Target, ID: a.ID, D: d, N: a.Waiters, Do: prog}
 					if a.CtxPipe {
-						st = world.Step{Op: "pipe", To: a.Target, ID: a.ID, D: int64(a.Timeout) * ms, L: a.Pipe, Do: prog}
+						st = world.Step{Op: "pipe", To: a.Target, ID: a.ID, D: d, L: a.Pipe, Do: prog}
 					}
 					if a.Asker == "" {
 						w.Exec(st)
@@ -227,6 +263,14 @@ func run(t *testing.T, c Case) (v *verdict, nontrivial bool, labels []string) {
 						refs = append(refs, w.Ref(n))
 					}
 					_ = rec.F.PipeTo(refs)
+					if len(a.Pipe2) > 0 {
+						var refs2 vivid.ActorRefs
+						for _, n := range a.Pipe2 {
+							refs2 = append(refs2, w.Ref(n))
+						}
+						_ = rec.F.PipeTo(refs2)
+						lab["piped-twice"] = true
+					}
 				}
 				if a.CloseAt >= 0 && a.At+a.CloseAt == tick {
 					rec.F.Close(errClosed)
@@ -369,7 +413,13 @@ func run(t *testing.T, c Case) (v *verdict, nontrivial bool, labels []string) {
 						final = r
 					}
 				}
-				for _, fw := range a.Pipe {
+				fws := append([]string{}, a.Pipe...)
+				for _, x := range a.Pipe2 {
+					if !contains(fws, x) {
+						fws = append(fws, x)
+					}
+				}
+				for _, fw := range fws {
 					if _, dead := killedAt[fw]; dead {
 						continue
 					}
@@ -380,18 +430,31 @@ func run(t *testing.T, c Case) (v *verdict, nontrivial bool, labels []string) {
 						}
 					}
 					// several futures may pipe identical-looking results to the same forwarder: count per result signature
-					expected := 0
+					// a forwarder named by two PipeTo calls on a future that is still pending is registered once; once the
+					// future has completed every call forwards by itself (then one or two are both right)
+					expected, expectedMax := 0, 0
 					for _, b := range c.Asks {
-						if b.PipeAt >= 0 && !b.CtxPipe && contains(b.Pipe, fw) {
+						calls := 0
+						if contains(b.Pipe, fw) {
+							calls++
+						}
+						if contains(b.Pipe2, fw) {
+							calls++
+						}
+						if b.PipeAt >= 0 && !b.CtxPipe && calls > 0 {
 							if rb := w.Futures[b.ID]; rb != nil {
 								rs := rb.ResultsOf()
 								if len(rs) > 0 && sameFinal(rs, final, b.ID+1000, replyID) {
 									expected++
+									expectedMax++
+									if calls == 2 && rs[0].T/ms <= rb.T0/ms {
+										expectedMax++ // completed in the millisecond of the calls: before or after them
+									}
 								}
 							}
 						}
 					}
-					if n != expected {
+					if n < expected || n > expectedMax {
 						v = &verdict{"C04/pipe|exactly-once", fmt.Sprintf("forwarder %s received %d PipeResult matching the final result of ask#%d (msg %d, err %q), expected %d; PipeTo was called %dms after the ask; %s ; forwarder trace: %s", fw, n, a.ID, final.MsgID, final.Err, expected, a.PipeAt, desc(), world.Fmt(world.PerActor(tr)["/"+fw]))}
 						return
 					}
